@@ -440,4 +440,172 @@ theorem resetTail_lift (c : Cfg) (m : Nat) (pre : List Obs) (s : State) :
   rw [← prime_lift]
   rfl
 
+/-! ## the transition system -/
+
+/-- The body of the `work w` action once the worker record is known. -/
+def workBody (c : Cfg) (s : State) (w : Nat) (k : Worker) : Option State :=
+  if !k.alive then none else
+  match k.q with
+  | [] => none
+  | msg :: rest =>
+    some { s with workers := s.workers.set w (handle c s.shutdown w { k with q := rest } msg).1
+                  resQ := match (handle c s.shutdown w { k with q := rest } msg).2 with
+                    | some r => s.resQ ++ [r] | none => s.resQ }
+
+theorem step_work_eq (c : Cfg) (s : State) (w : Nat) :
+    step c s (.work w) = match s.workers[w]? with | none => none | some k => workBody c s w k := by
+  simp only [step, workBody]
+  cases s.workers[w]? with
+  | none => rfl
+  | some k =>
+    simp only
+    split
+    · rfl
+    · cases k.q <;> rfl
+
+theorem workBody_lift (c : Cfg) (m : Nat) (pre : List Obs) (s : State) (w : Nat) (k : Worker) :
+    workBody c (lift m pre s) w (liftWorker m k) = (workBody c s w k).map (lift m pre) := by
+  obtain ⟨q, pos, ie, al⟩ := k
+  unfold workBody
+  simp only [liftWorker]
+  cases al with
+  | false => rfl
+  | true =>
+    cases q with
+    | nil => rfl
+    | cons msg rest =>
+      simp only [List.map_cons, Option.map_some, Bool.not_true, Bool.false_eq_true, if_false]
+      have e4 : (⟨rest.map (liftMsg m), pos, ie, true⟩ : Worker) = liftWorker m ⟨rest, pos, ie, true⟩ := rfl
+      have e5 : (lift m pre s).shutdown = s.shutdown := rfl
+      rw [e4, e5, handle_lift]
+      congr 1
+      cases (handle c s.shutdown w ⟨rest, pos, ie, true⟩ msg).2 with
+      | none => simp [lift, List.map_set]
+      | some r => simp [lift, List.map_set]
+
+theorem step_work_lift (c : Cfg) (m : Nat) (pre : List Obs) (s : State) (w : Nat) :
+    step c (lift m pre s) (.work w) = (step c s (.work w)).map (lift m pre) := by
+  rw [step_work_eq, step_work_eq]
+  have e1 : (lift m pre s).workers[w]? = (s.workers[w]?).map (liftWorker m) := by simp [lift]
+  rw [e1]
+  cases s.workers[w]? with
+  | none => rfl
+  | some k => exact workBody_lift c m pre s w k
+
+/-- The body of the `recv` action: `ph` = the consumer phase, `s` = the state after the result was taken
+from the queue. -/
+def recvBody (c : Cfg) (ph : Phase) (s : State) (r : Res) : Option State :=
+  match ph with
+  | .idle => none
+  | .waiting => if r.kind = .ack then none else some (recvData c s r)
+  | .resuming k =>
+    if r.kind = .ack then
+      if k ≤ 1 then
+        some { resetTail c { s with wsnaps := applyDelta s.wsnaps r.w r.st } with
+               phase := .idle
+               obs := (resetTail c { s with wsnaps := applyDelta s.wsnaps r.w r.st }).obs ++ [.resetDone] }
+      else some { s with wsnaps := applyDelta s.wsnaps r.w r.st, phase := .resuming (k - 1) }
+    else some s
+
+theorem step_recv_eq (c : Cfg) (s : State) :
+    step c s .recv = match s.resQ with
+      | [] => none
+      | r :: rest => recvBody c s.phase { s with resQ := rest } r := by
+  simp only [step, recvBody]
+  cases s.resQ with
+  | nil => rfl
+  | cons r rest =>
+    simp only
+    cases s.phase <;> rfl
+
+theorem recvBody_lift (c : Cfg) (m : Nat) (pre : List Obs) (ph : Phase) (s : State) (r : Res) :
+    recvBody c ph (lift m pre s) (liftRes m r) = (recvBody c ph s r).map (lift m pre) := by
+  cases ph with
+  | idle => rfl
+  | waiting =>
+    simp only [recvBody, liftRes_kind]
+    split
+    · rfl
+    · rename_i hk
+      rw [recvData_lift c m pre s r hk]; rfl
+  | resuming k =>
+    simp only [recvBody, liftRes_kind, liftRes_w, liftRes_st]
+    have e4 : ({ lift m pre s with wsnaps := applyDelta (lift m pre s).wsnaps r.w r.st } : State) =
+        lift m pre { s with wsnaps := applyDelta s.wsnaps r.w r.st } := rfl
+    split
+    · split
+      · rw [e4, resetTail_lift]
+        simp only [Option.map_some, lift, List.append_assoc]
+      · rfl
+    · rfl
+
+theorem step_lift (c : Cfg) (m : Nat) (pre : List Obs) (s : State) (a : Action) (ha : a ≠ .reset) :
+    step c (lift m pre s) a = (step c s a).map (lift m pre) := by
+  cases a with
+  | reset => exact absurd rfl ha
+  | work w => exact step_work_lift c m pre s w
+  | next =>
+    simp only [step]
+    have e1 : (lift m pre s).phase = s.phase := rfl
+    rw [e1]
+    split
+    · rfl
+    · rw [loopFuel_lift, finish_loop_lift]; rfl
+  | stateDict =>
+    simp only [step]
+    have e1 : (lift m pre s).phase = s.phase := rfl
+    rw [e1]
+    split
+    · rfl
+    · simp only [Option.map_some, lift, List.append_assoc]
+  | kill w =>
+    simp only [step]
+    have e1 : (lift m pre s).workers[w]? = (s.workers[w]?).map (liftWorker m) := by simp [lift]
+    rw [e1]
+    cases hk : s.workers[w]? with
+    | none => rfl
+    | some k =>
+      simp only [Option.map_some]
+      have e2 : (liftWorker m k).alive = k.alive := rfl
+      rw [e2]
+      split
+      · rfl
+      · simp [lift, List.map_set, liftWorker]
+  | pollTimeout =>
+    simp only [step]
+    have e1 : (lift m pre s).phase = s.phase := rfl
+    have e2 : ((lift m pre s).resQ ≠ []) ↔ (s.resQ ≠ []) := by simp [lift]
+    rw [e1, failedWorkers_lift]
+    by_cases hc : s.phase = .idle ∨ s.resQ ≠ []
+    · have hc' : s.phase = .idle ∨ (lift m pre s).resQ ≠ [] := hc.imp id e2.mpr
+      rw [if_pos hc, if_pos hc']; rfl
+    · have hc' : ¬ (s.phase = .idle ∨ (lift m pre s).resQ ≠ []) := fun h => hc (h.imp id e2.mp)
+      rw [if_neg hc, if_neg hc']
+      cases failedWorkers s c.W with
+      | nil => rfl
+      | cons f fs =>
+        simp only [markAll_lift, Option.map_some]
+        simp only [lift, List.append_assoc]
+  | recv =>
+    rw [step_recv_eq, step_recv_eq]
+    have e1 : (lift m pre s).resQ = s.resQ.map (liftRes m) := rfl
+    have e2 : (lift m pre s).phase = s.phase := rfl
+    rw [e1, e2]
+    cases s.resQ with
+    | nil => rfl
+    | cons r rest => exact recvBody_lift c m pre s.phase { s with resQ := rest } r
+
+/-- **Index-shift invariance.**  A reset-free schedule runs from the shifted state exactly as from the
+original one, and ends in the shifted end state. -/
+theorem run_lift (c : Cfg) (m : Nat) (pre : List Obs) (as : List Action) (s : State) (hnr : NoReset as) :
+    run c (lift m pre s) as = (run c s as).map (lift m pre) := by
+  induction as generalizing s with
+  | nil => rfl
+  | cons a as ih =>
+    simp only [run]
+    rw [step_lift c m pre s a hnr.1]
+    cases step c s a with
+    | none => rfl
+    | some s' => exact ih s' hnr.2
+
 end TDV.MPR
